@@ -170,6 +170,9 @@ def check_roundtrip(ctx, case):
                   'out-raises', 'alias>9calls'})
     if (prog.get('params') or {}).get('copy_data_on_intercepion'):
         shapes.add('copy-on-interception')
+    if any(d.get('run_missing') or d.get('value_missing') for d in prog['ins']) or any(
+            d.get('fail_missing') is False for d in prog['outs']):
+        shapes.add('missing-entry-policies')
     if any(d.get('fallback') for d in prog['ins']):
         shapes.add('fallback-aliases')
         live = set(d['alias'] for d in prog['ins'])
@@ -187,8 +190,25 @@ def with_fallbacks(draw, progs):
     operation (a legacy source kept next to its replacement) that was called with the same arguments."""
     prog = draw(progs)
     ins = prog['ins']
+    # so are the other replay-time policies for missing entries: run the original, a substitute value, and for outputs
+    # "do not fail, use the default" - whatever the recorded calls returned or raised (a recorded KeyError / LookupError
+    # is a recorded outcome, not a missing entry)
+    if draw(st.booleans()):
+        for d in ins:
+            how = draw(st.sampled_from(['none', 'run', 'value', 'both']))
+            if how in ('run', 'both'):
+                d['run_missing'] = True
+            if how in ('value', 'both'):
+                d['value_missing'] = {'kind': 'value', 'v': 'SUBSTITUTE'}
+        for d in prog['outs']:
+            if draw(st.booleans()):
+                d['fail_missing'] = False
+                d['default'] = 'DEFAULT'
+        for s_ in PS.iter_steps(prog['steps']):
+            if s_['t'] in ('in', 'out') and s_.get('beh') == 'raise' and draw(st.booleans()):
+                s_['exc'] = draw(st.sampled_from(['KeyError', 'LookupError']))
     if not ins or not draw(st.booleans()):
-        return prog
+        return PS.assign_sids(prog)
     pool = ['legacy', 'in.n1', 'cfg.n2']
     for d in ins:
         pool.append(d['alias'])
